@@ -14,7 +14,7 @@ from typing import List, Optional, Set
 
 from sa.cfg import CFG, guards
 from sa.model import full, AnalysisError, Repo, calls_in, const_str, dotted, norm, own_nodes
-from sa.match import Locals, match, names_in
+from sa.match import Locals, conjuncts, match, names_in
 from sa.report import Report
 
 
@@ -64,7 +64,7 @@ def run(repo: Repo, rep: Report, tier: str) -> None:
         for g, pol in guards(cfg, mnode.id, dom):
             if g.kind != "test" or pol is not True or id(g.ast) not in inside:
                 continue
-            conj += list(g.ast.values) if isinstance(g.ast, ast.BoolOp) and isinstance(g.ast.op, ast.And) else [g.ast]
+            conj += conjuncts(g.ast, L, stop=(mvar,) + tuple(L.params))
         stop = (mvar,) + tuple(L.params)
 
         def presence_like(c: ast.AST) -> Optional[bool]:
